@@ -73,7 +73,17 @@ def real_feed(cls_name, chunks):
             out.append(("?", name, args))
         else:
             out.append(args[0])
-    return out, bytes(proto.buffer)
+    left = bytes(proto.buffer)
+    # the peer closes the connection: what was received without a line end is not a line, and stays unhandled
+    delivered = len(lines)
+    if hasattr(proto, "eof_received"):
+        try:
+            proto.eof_received()
+        except Exception:  # noqa: BLE001   (C20's business)
+            pass
+    if len(lines) != delivered:
+        out.append(("?", "handled-at-close", tuple(lines[delivered:])))
+    return out, left
 
 
 def spec_feed(stream):
